@@ -137,3 +137,35 @@ pub fn reencode(
     }
     .encode(dst_id)
 }
+
+/// Like [`craft_handshake`] but with an arbitrary byte string in place of the id-nonce signature
+/// (empty, malformed, or a signature made elsewhere).
+pub fn craft_handshake_raw_sig(
+    claimed_src_id: NodeId,
+    dst_enr: &Enr,
+    challenge_data: &[u8],
+    record: Option<Enr>,
+    nonce: [u8; 12],
+    plaintext: &[u8],
+    sig: Vec<u8>,
+) -> Option<(Vec<u8>, RawKeys, Vec<u8>)> {
+    let cd = ChallengeData::try_from(challenge_data).ok()?;
+    let contact = crate::NodeContact::try_from_enr(dst_enr.clone(), crate::IpMode::DualStack).ok()?;
+    let (initiator_key, recipient_key, ephem_pubkey) =
+        crypto::generate_session_keys(&claimed_src_id, &contact, &cd).ok()?;
+    let mut p = Packet::new_authheader(
+        claimed_src_id,
+        nonce,
+        ProtocolIdentity::default(),
+        sig,
+        ephem_pubkey.clone(),
+        record,
+    );
+    let aad = p.authenticated_data();
+    p.message = crypto::encrypt_message(&initiator_key, nonce, plaintext, &aad).ok()?;
+    Some((
+        p.encode(&dst_enr.node_id()),
+        RawKeys { initiator_key, recipient_key },
+        ephem_pubkey,
+    ))
+}
